@@ -9,6 +9,7 @@
   a request is kept (`Inflight.addOk`).
 -/
 import MainlineModel.Lemmas.SocketLemmas
+import MainlineModel.Model.Actor
 namespace Mainline.Props.C09
 open Mainline Mainline.Inflight
 
@@ -379,5 +380,65 @@ example :
     (exTable.recv .error 1 ⟨2130706433, 6881⟩ 1005).2 = true ∧
     (exTable.recv .response 4294967295 ⟨838926593, 6881⟩ (1005 + 500000000)).2 = false := by
   decide +kernel
+
+end Mainline.Props.C09
+
+/-! ### above the socket: what a message that is not handed up can do — nothing -/
+
+namespace Mainline.Props.C09
+open Mainline Mainline.Actor
+
+/-- a datagram the socket does not hand up (unknown / expired / mismatching transaction id or
+    address, port 0) leaves the node's core — query results, candidate lists, routing tables,
+    address votes, stores — and its callers exactly as they were; only the socket's own bookkeeping
+    (round-trip estimate, a consumed late reply) may change -/
+theorem dropped_datagram_no_effect (a : Actor) (env : Env) (dgram : Option (Message × Addr))
+    (h : (a.recvPhase env.now dgram).2 = none) :
+    (a.preDone env dgram).core = a.core ∧ (a.preDone env dgram).events = a.events ∧
+    (a.preDone env dgram).getSenders = a.getSenders ∧ (a.preDone env dgram).putSenders = a.putSenders ∧
+    (a.preDone env dgram).out = a.out := by
+  have hr : (a.recvPhase env.now dgram).1.core = a.core ∧ (a.recvPhase env.now dgram).1.events = a.events ∧
+      (a.recvPhase env.now dgram).1.getSenders = a.getSenders ∧ (a.recvPhase env.now dgram).1.putSenders = a.putSenders ∧
+      (a.recvPhase env.now dgram).1.out = a.out := by
+    unfold recvPhase
+    cases dgram with
+    | none => exact ⟨rfl, rfl, rfl, rfl, rfl⟩
+    | some p => exact ⟨rfl, rfl, rfl, rfl, rfl⟩
+  unfold preDone
+  rw [h]
+  simp only [handleIncoming, forwardValue]
+  exact hr
+
+/-- the socket hands a response or error up only on `accepted_iff`'s conditions -/
+theorem handed_up_iff (a : Actor) (hi : a.sock.Inv) (now : Nat) (m : Message) (src : Addr)
+    (hk : ∀ r, m.mtype ≠ .request r) :
+    (a.recvPhase now (some (m, src))).2 = some (m, src) ↔
+      src.port ≠ 0 ∧ ∃ r ∈ a.sock.requests, Answers r m.tid.toNat src ∧ a.sock.live r now = true := by
+  have htid : m.tid.toNat < two32 := by
+    have := m.tid.toNat_lt; simpa [two32] using this
+  have hd : ∀ kind : Incoming, kind ≠ Incoming.request →
+      ((a.sock.decide kind m.tid.toNat src now).2 = true ↔
+        src.port ≠ 0 ∧ ∃ r ∈ a.sock.requests, Answers r m.tid.toNat src ∧ a.sock.live r now = true) := by
+    intro kind hkind
+    unfold Inflight.decide
+    by_cases hp : src.port = 0
+    · simp [hp]
+    · have hp' : (src.port == 0) = false := by simpa using hp
+      simp only [hp', Bool.false_eq_true, ite_false, ne_eq, hp, not_false_eq_true, true_and]
+      cases kind with
+      | request => exact absurd rfl hkind
+      | response => exact accepted_iff a.sock hi _ src now htid
+      | error => exact accepted_iff a.sock hi _ src now htid
+  unfold recvPhase
+  cases hm : m.mtype with
+  | request r => exact absurd hm (hk r)
+  | response r =>
+    simp only [hm]
+    rw [← hd Incoming.response (by simp)]
+    cases (a.sock.decide Incoming.response m.tid.toNat src now).2 <;> simp
+  | error e =>
+    simp only [hm]
+    rw [← hd Incoming.error (by simp)]
+    cases (a.sock.decide Incoming.error m.tid.toNat src now).2 <;> simp
 
 end Mainline.Props.C09
